@@ -152,11 +152,11 @@ func (c cfgChoice) config() config.Pipeline {
 func grammar(thorough bool) []cfgChoice {
 	connProcs := [][]string{nil, {"a1"}, {"a1", "a2", "a3"}, {"a3", "a2", "a1"}}
 	pipeProcs := [][]string{nil, {"x", "y", "z"}, {"z", "x"}}
-	edits := []string{"", "name", "A.settings", "proc.settings", "proc.workers", "proc.condition", "dlq"}
+	edits := []string{"", "name", "A.settings", "A.plugin", "proc.settings", "proc.workers", "proc.condition", "dlq"}
 	if thorough {
 		connProcs = append(connProcs, []string{"a2"}, []string{"a1", "a2"}, []string{"a2", "a1", "a3"})
 		pipeProcs = append(pipeProcs, []string{"x"}, []string{"x", "y"}, []string{"y", "x", "z"})
-		edits = append(edits, "A.plugin", "description", "A.name", "proc.plugin")
+		edits = append(edits, "description", "A.name", "proc.plugin")
 	}
 	var out []cfgChoice
 	for _, cp := range connProcs {
